@@ -716,46 +716,56 @@ def day_readback(ck, S, rid):
               "%s: a guard on the way to setFileTime() could not be evaluated for (daily rotation, non-empty file, content of an earlier day)" % name, key="day-state|" + tag)
 
 
-def retention_by_cases(ck, S, rid):
+def retention_by_cases(ck, S, rid, failures=False):
     """removeOldFiles() executed by cases (engine/conc.py): findRotatedFiles() answers f0 .. f(k-1) (oldest first, as its sort rule establishes), every
     removal succeeds, the limit is N.  Required: exactly the max(0, k - (N - 1)) files at one end of the list are removed - the oldest ones - and for N <= 0
-    none.  Returns True / False / None (outside the evaluable fragment: the structural rules decide)."""
+    none.  With failures=True every case is run again once per removal call with exactly that call failing (the I/O fault of C10): required then is that no
+    file outside the max(0, k - (N - 1)) oldest is even handed to a removal - a failed unlink must not be 'made up for' by deleting a newer file.
+    Returns True / False / None (outside the evaluable fragment: the structural rules decide)."""
     from engine.conc import Conc, Unknown, Table
     ro = S.m["removeOldFiles"]
     frf = S.m["findRotatedFiles"].id
-    bad, ends, n_cases = [], set(), 0
+    bad, ends, n_cases, n_fail_cases = [], set(), 0, 0
+
+    def execute(N, fields, files, fail_at):
+        attempted, removed = [], []
+
+        def leaf(n, env):
+            if not isinstance(n, dict) or n.get("k") != "call":
+                return None
+            if n.get("fn") == frf:
+                return Table(items=list(files))
+            kind = destructive_kind(n)
+            if kind == "remove":
+                a = n.get("args") or []
+                tgt = a[0] if a else n.get("obj")
+                v = cc.eval(tgt, env)
+                if not isinstance(v, str):
+                    raise Unknown("removal target")
+                fails = (len(attempted) == fail_at)
+                attempted.append(v)
+                if not fails:
+                    removed.append(v)
+                c = strip_tmpl(n.get("callee") or "")
+                ok_value, fail_value = (0, -1) if c in ("unlink", "remove", "std::remove") else (1, 0)
+                return fail_value if fails else ok_value
+            if n.get("ck") == "operator" and n.get("op") == "<<":
+                return 1
+            short = strip_tmpl(n.get("callee") or "").split("::")[-1]
+            if short in ("toStdString", "qPrintable", "toLocal8Bit", "toUtf8", "constData", "endl", "flush", "qWarning", "qDebug", "warning", "noquote", "nospace"):
+                return 1
+            return None
+        cc = Conc(S.F, leaf=leaf, max_steps=40000)
+        cc.call_fn(ro, [], fields)
+        return attempted, removed
+
     for N in (-1, 0, 2, 3, 5):
         fields = {k_.split("::")[-1]: v_ for k_, v_ in S.fields_for_count(N).items()}
         fields.update({k_: v_ for k_, v_ in S.fields_for_count(N).items()})
         for k in range(0, 9):
             files = ["f%d" % i for i in range(k)]
-            removed = []
-
-            def leaf(n, env):
-                if not isinstance(n, dict) or n.get("k") != "call":
-                    return None
-                if n.get("fn") == frf:
-                    return Table(items=list(files))
-                kind = destructive_kind(n)
-                if kind == "remove":
-                    a = n.get("args") or []
-                    tgt = a[0] if a else n.get("obj")
-                    v = cc.eval(tgt, env)
-                    if not isinstance(v, str):
-                        raise Unknown("removal target")
-                    removed.append(v)
-                    c = strip_tmpl(n.get("callee") or "")
-                    return 0 if c in ("unlink", "remove", "std::remove") else 1
-                if n.get("ck") == "operator" and n.get("op") == "<<":
-                    return 1
-                short = strip_tmpl(n.get("callee") or "").split("::")[-1]
-                if short in ("toStdString", "qPrintable", "toLocal8Bit", "toUtf8", "constData", "endl", "flush", "qWarning", "qDebug", "warning", "noquote", "nospace"):
-                    return 1
-                return None
-            cc = Conc(S.F, leaf=leaf, max_steps=40000)
-            env = {"__fn__": ro, "__fields__": fields}
             try:
-                cc.call_fn(ro, [], fields)
+                attempted, removed = execute(N, fields, files, None)
             except Unknown as e:
                 return None, "removeOldFiles() is outside the fragment that can be executed by cases (%s)" % e
             n_cases += 1
@@ -767,20 +777,37 @@ def retention_by_cases(ck, S, rid):
                 if removed:
                     bad.append((N, k, removed, "files are removed although the limit is <= 0"))
                 continue
+            end = None
             if sorted(removed) == sorted(files[:want]):
+                end = "first"
                 if want and want < k:
                     ends.add("first")
             elif sorted(removed) == sorted(files[k - want:]) and want:
+                end = "last"
                 if want < k:
                     ends.add("last")
             else:
                 bad.append((N, k, removed, "expected the %d oldest" % want))
+                continue
+            if failures and want:
+                allowed = set(files[:want] if end == "first" else files[k - want:])
+                for j in range(len(attempted)):
+                    try:
+                        att2, rem2 = execute(N, fields, files, j)
+                    except Unknown as e:
+                        return None, "removeOldFiles() with a failing removal is outside the fragment that can be executed by cases (%s)" % e
+                    n_fail_cases += 1
+                    extra = [x for x in att2 if x not in allowed]
+                    if extra:
+                        bad.append((N, k, att2, "removal number %d (of %s) fails and %s, which the limit does not ask for, is removed in its place" % (j + 1, attempted[j], ", ".join(extra))))
+                        break
     if bad:
         N, k, removed, why = bad[0]
         return False, "with a limit of %d and %d rotated files f0..f%d (oldest first), removeOldFiles() removes %s: %s" % (N, k, k - 1, removed or "nothing", why)
     if len(ends) > 1:
         return False, "removeOldFiles() takes its victims from different ends of the list in different cases"
-    return True, "executed by cases for N in {-1,0,2,3,5} x 0..8 rotated files (%d cases): exactly the max(0, k - (N-1)) files at the %s end are removed, none for N <= 0" % (n_cases, (list(ends) or ["first"])[0])
+    return True, "executed by cases for N in {-1,0,2,3,5} x 0..8 rotated files (%d cases%s): exactly the max(0, k - (N-1)) files at the %s end are removed, none for N <= 0" % (
+        n_cases, ", and %d more with one removal failing: no other file is touched" % n_fail_cases if failures else "", (list(ends) or ["first"])[0])
 
 
 END_EXACT = ("\\z",)
